@@ -19,7 +19,7 @@ from ..norm import Affine, Canon, Lit, Logic, ProvCanon, affine, effects_of_even
 from ..paths import Frame, bind_args, cached_paths, function_paths
 from .common import call_name, short, stmt_contains
 
-FLOORS = {'C18.V1': 2, 'C18.V2': 2, 'C18.V3': 6, 'C18.V4': 4, 'C18.V5': 2, 'C18.V6': 2, 'C18.V7': 2}
+FLOORS = {'C18.V1': 2, 'C18.V2': 2, 'C18.V3': 6, 'C18.V4': 4, 'C18.V5': 2, 'C18.V6': 2, 'C18.V7': 2, 'C18.V9': 2}
 
 MOVERS = {
     'Buffer.move_hot_to_cold': ('HotBuffer', 'ColdBuffer'),
@@ -224,9 +224,51 @@ def _subst_term(a, key, val):
     return rest + val.scale(coeff)
 
 
+def v9(repo, res, canon, logic, f, fr, rc):
+    """the move loop goes on exactly while data is left: it is left (normally) only with the
+    residual <= 0 and it goes round again only with the residual > 0"""
+    from .common import enclosing_loops, iteration_segments, path_must
+    from ..norm import Lit
+    from ..paths import is_const_true
+    loops = [l for l in enclosing_loops(f, rc) if isinstance(l, ast.While)]
+    if not loops or len(rc.args) < 2 or not isinstance(rc.args[1], ast.Name):
+        res.bad('C18.V9', f, rc, 'no move loop around receive_observation(obs, residual)',
+                'the per-step receive is not inside a loop driven by a residual local')
+        return
+    lp = loops[-1]
+    R = rc.args[1].id
+    more = Lit('%s <= 0' % R, False)
+    done = Lit('%s <= 0' % R, True)
+    ok, why, n = True, '', 0
+    if not is_const_true(lp.test):
+        must = logic.must(lp.test, fr, True)
+        if more not in must or len(must) != 1:
+            ok, why = False, 'the move loop runs while `%s`, not while data is left (%s > 0)' % (short(ast.unparse(lp.test)), R)
+        n += 1
+    for seg, how in iteration_segments(f, lp):
+        if how == 'raise':
+            continue
+        class _P:
+            events = seg
+        must = path_must(logic, _P, depth=0)
+        if how in ('return', 'fall', 'break'):
+            n += 1
+            if done not in must:
+                ok, why = False, ('the move loop is left on a path that has not established that nothing is left to move '
+                                  '(%s <= 0): the observation stays in the transfer slots for ever' % R)
+        elif how == 'back' and is_const_true(lp.test):
+            n += 1
+            if more not in must:
+                ok, why = False, ('the move loop goes round again on a path that has not established that data is left '
+                                  '(%s > 0): with nothing left it never ends' % R)
+    (res.ok if ok and n else res.bad)('C18.V9', f, lp, '%s: the loop runs exactly while data is left' % f.name,
+                                      '%d path(s)' % n if ok and n else why or 'no loop path')
+
+
 def check(repo, res, tier):
     canon = Canon(repo)
     logic = Logic(canon)
+    res.rule('C18.V9', 'a move loop is left only with residual <= 0 and repeated only with residual > 0')
     res.rule('C18.V1', 'receiver and sender of one move loop are driven by the same rate expression')
     res.rule('C18.V2', 'that rate is min(hot.max_ingest_data_rate, cold.max_data_rate)')
     res.rule('C18.V3', 'per case (rate sign, residual < rate): receiver capacity delta = -(sender capacity delta) '
@@ -259,6 +301,7 @@ def check(repo, res, tier):
                 [c.qual for c in rcal], [c.qual for c in scal]),
                 '%s must receive on the %s and transfer from the %s' % (q, dst_cls, src_cls))
             continue
+        v9(repo, res, canon, logic, f, fr, rc)
         rrows, rsub = table(repo, canon, rcal[0], rc, fr)
         srows, ssub = table(repo, canon, scal[0], sc, fr)
         res.analysed(rcal[0], len(rrows))
